@@ -10,7 +10,7 @@ namespace AsynqModel.Futures
 /-- set at most once: nothing but `reset_unsafe` changes the outcome of a computed future -/
 theorem C10_single_assignment (f : Fut) (o : Outc) (op : Op) (h : f.out = some o) (hr : op ≠ .reset) :
     (step f op).1.out = some o := by
-  cases op <;> simp_all [step] <;> (try split) <;> simp_all
+  cases op <;> simp_all [step] <;> (repeat' split) <;> simp_all
 
 /-- a second `set_value` / `set_error` raises FutureIsAlreadyComputed, changes nothing and notifies nobody -/
 theorem C10_failed_set_noop (f : Fut) (o : Outc) (h : f.out = some o) (x : Nat) :
@@ -26,15 +26,62 @@ theorem C10_reads_stable (f : Fut) (o : Outc) (h : f.out = some o) :
   simp [step, h]
 
 /-- a completion (uncomputed → computed, by any operation) notifies every subscriber exactly once, in
-    subscription order, and each sees the new outcome (raising subscribers do not stop the others) -/
+    subscription order, and each sees the new outcome - WHATEVER the subscribers do while they are notified (raise,
+    unsubscribe themselves or another handler, subscribe a new handler, try to complete the future again) -/
 theorem C10_notify_once_after_visible (f : Fut) (op : Op) (o : Outc)
     (h0 : f.out = none) (h1 : (step f op).1.out = some o) :
-    (step f op).2.2 = f.subs.map (fun s => { sub := s.1, seen := some o }) := by
+    (step f op).2.2 = f.subs.map (notif o) := by
   cases op <;> simp only [step, h0] at h1 ⊢
   case isComputed => simp_all
   case reset => simp_all
   case subscribe => split at h1 <;> simp_all
+  case unsubscribe => (repeat' split at h1) <;> simp_all
   all_goals (cases hk : f.kind <;> cases ha : f.alive <;> simp_all [compute, complete])
+
+/-- counting form: handler `j` is notified exactly as often as it is subscribed (once, for the harness' distinct ids),
+    for every list of subscriber behaviours -/
+theorem C10_notify_count (f : Fut) (op : Op) (o : Outc) (j : Nat)
+    (h0 : f.out = none) (h1 : (step f op).1.out = some o) :
+    (((step f op).2.2).map (·.sub)).count j = (f.subs.map (·.1)).count j := by
+  rw [C10_notify_once_after_visible f op o h0 h1]
+  simp [List.map_map, Function.comp_def, notif]
+
+/-- the handler list a completion leaves behind is the snapshot edited by the notified handlers, in order
+    (so the next completion after `reset_unsafe` notifies exactly those) -/
+theorem C10_subs_after_completion (f : Fut) (op : Op) (o : Outc)
+    (h0 : f.out = none) (h1 : (step f op).1.out = some o) :
+    (step f op).1.subs = afterNotify f.subs := by
+  cases op <;> simp only [step, h0] at h1 ⊢
+  case isComputed => simp_all
+  case reset => simp_all
+  case subscribe => split at h1 <;> simp_all
+  case unsubscribe => (repeat' split at h1) <;> simp_all
+  all_goals (cases hk : f.kind <;> cases ha : f.alive <;> simp_all [compute, complete])
+
+/-- handlers that do not touch the handler list (well-behaved, raising, re-entrant) all stay subscribed -/
+theorem C10_passive_subs_stay (subs : List Sub)
+    (h : ∀ s ∈ subs, s.2 = .good ∨ s.2 = .raising ∨ ∃ o, s.2 = .reenter o) : afterNotify subs = subs := by
+  have key : ∀ (l acc : List Sub), (∀ s ∈ l, s.2 = .good ∨ s.2 = .raising ∨ ∃ o, s.2 = .reenter o) →
+      l.foldl applyBeh acc = acc := by
+    intro l
+    induction l with
+    | nil => intros; rfl
+    | cons s ss ih =>
+      intro acc hl
+      have hs := hl s (by simp)
+      have : applyBeh acc s = acc := by
+        rcases hs with h | h | ⟨o, h⟩ <;> simp [applyBeh, h]
+      simp only [List.foldl_cons, this]
+      exact ih acc (fun t ht => hl t (by simp [ht]))
+  exact key subs subs h
+
+/-- `unsubscribe` forgets the handler (first subscription of that identity) and nothing else; unsubscribing a handler
+    that is not subscribed raises and changes nothing; neither notifies anybody nor touches the outcome -/
+theorem C10_unsubscribe (f : Fut) (j : Nat) (hk : f.kind.sinking = false) :
+    step f (.unsubscribe j) =
+      if hasSub f.subs j then ({ f with subs := eraseSub f.subs j }, .unit, [])
+      else (f, .raised .notSubscribed, []) := by
+  simp [step, hk]
 
 /-- the provider / task body runs at most once per `reset_unsafe()` (plus once) over any history -/
 theorem C10_provider_once (k : Kind) (ops : List Op) :
@@ -57,9 +104,26 @@ theorem C10_const_complete (v e : Nat) :
 
 /-! non-vacuity: a concrete history with a raising subscriber, a failed set, a reset and a recomputation -/
 example : spec (.lazyErr 2)
-    (run (init (.lazyErr 2)) [.subscribe 1 true, .subscribe 2 false, .error, .setValue 3, .value, .reset, .value]) = true := by
+    (run (init (.lazyErr 2)) [.subscribe 1 .raising, .subscribe 2 .good, .error, .setValue 3, .value, .reset, .value]) = true := by
   decide
-example : (run (init (.lazyErr 2)) [.subscribe 1 true, .subscribe 2 false, .error]).getLast?.map (·.cbs.length) = some 2 := by
+example : (run (init (.lazyErr 2)) [.subscribe 1 .raising, .subscribe 2 .good, .error]).getLast?.map (·.cbs.length) = some 2 := by
+  decide
+/-- a one-shot subscriber does not hide the subscriber registered after it (all four are notified), and it is gone
+    for the second completion -/
+example : (run (init (.lazyOk 1)) [.subscribe 1 .good, .subscribe 2 .oneShot, .subscribe 3 .good, .subscribe 4 .good,
+    .value, .reset, .value]).map (·.cbs.map (·.sub)) = [[], [], [], [], [1, 2, 3, 4], [], [1, 3, 4]] := by
+  decide
+/-- the observer rejects the history in which the subscriber after the one-shot one is skipped -/
+example : spec (.lazyOk 1)
+    [{ op := .subscribe 1 .oneShot, res := .unit, cbs := [], after := none, runs := 0 },
+     { op := .subscribe 2 .good, res := .unit, cbs := [], after := none, runs := 0 },
+     { op := .value, res := .ok 1, cbs := [{ sub := 1, seen := some (.val 1) }], after := some (.val 1), runs := 1 }] = false := by
+  decide
+/-- ... and a re-entrant subscriber whose second `set_value` is NOT refused -/
+example : spec (.lazyOk 1)
+    [{ op := .subscribe 1 (.reenter (.val 2)), res := .unit, cbs := [], after := none, runs := 0 },
+     { op := .value, res := .ok 1, cbs := [{ sub := 1, seen := some (.val 1), inner := some .unit }],
+       after := some (.val 1), runs := 1 }] = false := by
   decide
 /-- the observer is not trivially true: it rejects a history in which a computed future changes its value -/
 example : spec (.const 1) [{ op := .value, res := .ok 2, cbs := [], after := some (.val 2), runs := 0 }] = false := by
